@@ -621,6 +621,15 @@ class Interp:
                 return Int(f, a.ty)
             if op in ("AddWithOverflow", "SubWithOverflow", "MulWithOverflow"):
                 f = {"AddWithOverflow": x + y, "SubWithOverflow": x - y, "MulWithOverflow": x * y}[op]
+                # the overflow flag is exact when the operand type's range is known (`128u32 - 128 - 128` overflows)
+                ty = lty or a.ty
+                m_ = re.match(r"^([iu])(8|16|32|64|128|size)$", ty or "")
+                if m_:
+                    bits = 64 if m_.group(2) == "size" else int(m_.group(2))
+                    lo, hi = (-(1 << (bits - 1)), (1 << (bits - 1)) - 1) if m_.group(1) == "i" else (0, (1 << bits) - 1)
+                    if not lo <= f <= hi:
+                        wrapped = (f - lo) % (1 << bits) + lo
+                        return Tup([Int(wrapped, a.ty), TRUE])
                 return Tup([Int(f, a.ty), FALSE])
         if isinstance(a, Lin) or isinstance(b, Lin):
             la, lb = Lin.of(a), Lin.of(b)
